@@ -6,7 +6,8 @@ from .. import AnalysisError
 from ..report import Ob
 from ..cfg import Builder, calls_at, call_attr, is_self_attr, own_exprs, walk_now
 from ..state import Analysis, State, bind_call, SCHED_PARAMS, sched_event_type, sched_action_name
-from ..norm import Normalizer, cmp_norm, single_defs
+from ..norm import Normalizer, cmp_norm, single_defs, FrameEnv
+from ..devices import canon_text as dv_canon
 from .. import inventory as inv
 
 EXPLANATION = '''
@@ -398,9 +399,10 @@ def check(ctx):
         tn, tc = term[0]
         b = bind_call(tc, SCHED_PARAMS)
         o7.count()
-        tlin = N.norm(b['time'], single_defs(fn)) if 'time' in b else None
+        tlin = N.norm(b['time'], FrameEnv(tn.frame)) if 'time' in b else None      # through helper frames and locals
         tkey = tlin.key() if tlin is not None else None
-        if tlin is None or not tlin.is_({'NOW': 1, 'simulation_duration': 1}):
+        dur = [a.arg for a in fn.args.args][1]
+        if tlin is None or not tlin.is_({'NOW': 1, dur: 1}):
             o7.fail(P, 'Environment.run', tc, f'the TERMINATE event must be due at now + simulation_duration, found `{tkey}`', node=tn)
         else:
             o7.witness('time')
@@ -440,8 +442,8 @@ def check(ctx):
         # loop: step node is on a cycle
         if sn.id not in g.reach([m for _, m in g.succ[sn.id]], follow=lambda l: l != 'exc'):
             o7.fail(P, 'Environment.run', None, 'step() is not called in a loop', node=sn)
-        conds_ev = [n for n in g.nodes.values() if n.kind == 'cond' and ast.unparse(n.ast) in ('self._events', 'len(self._events) > 0', 'len(self._events) != 0', 'len(self._events)')]
-        conds_t = [n for n in g.nodes.values() if n.kind == 'cond' and ast.unparse(n.ast) in ('self._terminated',)]
+        conds_ev = [n for n in g.nodes.values() if n.kind == 'cond' and dv_canon(n.ast, n.frame) in ('self._events', 'len(self._events)>0', 'len(self._events)!=0', 'len(self._events)', '0<len(self._events)')]
+        conds_t = [n for n in g.nodes.values() if n.kind == 'cond' and dv_canon(n.ast, n.frame) in ('self._terminated',)]
         o7.count(2)
         ok_e = any(sn.id not in g.reach_edges([g.entry], cut_edges={(n.id, 'T')}) for n in conds_ev)
         ok_t = any(sn.id not in g.reach_edges([g.entry], cut_edges={(n.id, 'F')}) for n in conds_t)
